@@ -19,7 +19,7 @@ Definition card_eqb (a b : card) : bool :=
 Definition wf_agg (op : aggop) (param : option expr) : bool :=
   match op with
   | AOther => false
-  | ACountValues => match param with Some (EStr _) => true | _ => false end
+  | ACountValues => match lit_of param with Some _ => true | None => false end
   | _ => true
   end.
 
